@@ -10,30 +10,24 @@ pub const NONE: u8 = 255;
 #[derive(Clone, Copy, PartialEq, Eq, Hash, Debug)]
 pub struct Fill {
     pub base: u8,
-    pub o: [(u8, u64); 2],
+    pub o: [(u8, u64); 3],
 }
 
 impl Fill {
     pub const fn b(base: u8) -> Fill {
-        Fill { base, o: [(NONE, 0), (NONE, 0)] }
+        Fill { base, o: [(NONE, 0), (NONE, 0), (NONE, 0)] }
     }
     pub fn with(mut self, idx: u8, v: u64) -> Fill {
-        if self.o[0].0 == NONE {
-            self.o[0] = (idx, v);
-        } else {
-            self.o[1] = (idx, v);
+        for slot in self.o.iter_mut() {
+            if slot.0 == NONE || slot.0 == idx {
+                *slot = (idx, v);
+                return self;
+            }
         }
-        self
+        panic!("Fill: more than 3 overrides");
     }
     fn over(&self, i: u8) -> Option<u64> {
-        // later override wins
-        if self.o[1].0 == i {
-            return Some(self.o[1].1);
-        }
-        if self.o[0].0 == i {
-            return Some(self.o[0].1);
-        }
-        None
+        self.o.iter().find(|x| x.0 == i).map(|x| x.1)
     }
     /// raw value of field `i` with `bits` width
     pub fn raw(&self, i: u8, bits: u32) -> u64 {
@@ -109,10 +103,12 @@ impl Fill {
     pub fn json(&self) -> Value {
         if self.o[0].0 == NONE {
             json!(self.base)
-        } else if self.o[1].0 == NONE {
-            json!([self.base, [self.o[0].0, self.o[0].1]])
         } else {
-            json!([self.base, [self.o[0].0, self.o[0].1], [self.o[1].0, self.o[1].1]])
+            let mut a = vec![json!(self.base)];
+            for x in self.o.iter().filter(|x| x.0 != NONE) {
+                a.push(json!([x.0, x.1]));
+            }
+            Value::Array(a)
         }
     }
     pub fn from_json(v: &Value) -> Option<Fill> {
